@@ -125,5 +125,15 @@ fn main() {
     let mut rng = Rng::new(cfg.seed);
     grammar_tie(&mut out);
     proto::run(&cfg, &mut out, &mut rng);
+    out.extra(
+        "exhaustive_parts",
+        json!([
+            "dump equality of all 14 + 2 production matcher NFAs with the model's automata",
+            "bisimulation of both compiled production DFAs with the model DFA: all reachable state pairs x 256 bytes",
+            "self-delimiting condition and terminal-state condition on every row of the dumped event DFA (verified checker)",
+            "all literal-key accepting paths of the dumped event DFA against the regenerated key table and the naming table, both directions",
+            "DecMode::from_usize on 0..=2100, DecModeStatus::from_usize on 0..=12"
+        ]),
+    );
     out.finish("printed streams of 1-12 events uniform over the 14 families with boundary parameters over-weighted, 3 partitions each; non-trivial = stream with at least one parsed (non literal, non text) event; distinct by stream bytes");
 }
